@@ -25,7 +25,7 @@ func encPieces(out []int64, ps []xpiece) []int64 {
 		switch p.kind {
 		case 0:
 			out = append(out, int64(p.c))
-		case 1, 3:
+		case 1, 3, 4, 5, 6:
 			out = encBytesStr(out, p.s)
 		default:
 			out = encPieces(out, p.inner)
@@ -115,7 +115,7 @@ func (r *intReader) pieces(depth int) []xpiece {
 		switch {
 		case k == 0:
 			ps = append(ps, xpiece{kind: 0, c: byte(r.next())})
-		case k == 1 || k == 3:
+		case k == 1 || k == 3 || (depth == 1 && k >= 4 && k <= 6):
 			ps = append(ps, xpiece{kind: int(k), s: r.str()})
 		case depth == 0:
 			ps = append(ps, xpiece{kind: 2, inner: r.pieces(1)})
@@ -222,6 +222,8 @@ func xmlspecGen(r *Rng, tier string, emit func(Case)) {
 		{kind: itCdata, s: ""}, {kind: itCdata, s: "]"}, {kind: itCdata, s: "]]"}, {kind: itCdata, s: "]>"}, {kind: itCdata, s: "]]]"}, {kind: itCdata, s: ">"},
 		{kind: itDoctype}, {kind: itDoctype, pieces: []xpiece{{kind: 1, s: ">"}}}, {kind: itDoctype, pieces: []xpiece{{kind: 2}}},
 		{kind: itDoctype, pieces: []xpiece{{kind: 2, inner: []xpiece{{kind: 0, c: '>'}, {kind: 0, c: '['}, {kind: 1, s: "]"}}}}},
+		{kind: itDoctype, pieces: []xpiece{{kind: 2, inner: []xpiece{{kind: 5, s: ""}, {kind: 5, s: " ]\"'> "}, {kind: 6, s: "p"}, {kind: 6, s: "p ]\"'>"}}}}},
+		{kind: itDoctype, pieces: []xpiece{{kind: 2, inner: []xpiece{{kind: 4, s: "!E"}, {kind: 4, s: "!-x"}, {kind: 4, s: "a"}, {kind: 5, s: "<?"}, {kind: 6, s: "<!--"}}}}},
 		{kind: itDoctype, pieces: []xpiece{{kind: 3, s: ">"}}}, {kind: itDoctype, pieces: []xpiece{{kind: 3, s: "\"]["}, {kind: 1, s: "'"}}},
 		{kind: itDoctype, pieces: []xpiece{{kind: 2, inner: []xpiece{{kind: 3, s: "]\">"}, {kind: 0, c: '>'}}}}},
 		{kind: itPI, s: "a"}, {kind: itPI, s: "a", ws: " "},
